@@ -169,7 +169,7 @@ pub fn generator_next(
                             // Simplest fix: await the promise now using resolve_promise_sync
                             let promise_result =
                                 super::promise::resolve_promise_sync(interp, result_obj)?;
-                            let (value, done) = interp.extract_iterator_result(&promise_result);
+                            let (value, done) = interp.extract_iterator_result(&promise_result)?;
 
                             if done {
                                 // Clear delegation and resume outer generator with the return value
@@ -184,7 +184,7 @@ pub fn generator_next(
                             }
                         } else {
                             // Result is not a Promise, extract value/done directly
-                            let (value, done) = interp.extract_iterator_result(&result.value);
+                            let (value, done) = interp.extract_iterator_result(&result.value)?;
 
                             if done {
                                 gen_state.borrow_mut().delegated_iterator = None;
@@ -205,7 +205,7 @@ pub fn generator_next(
                     }
                 } else {
                     // Sync generator - extract value/done directly
-                    let (value, done) = interp.extract_iterator_result(&result.value);
+                    let (value, done) = interp.extract_iterator_result(&result.value)?;
 
                     if done {
                         // Clear delegation and resume outer generator with the return value
